@@ -272,6 +272,28 @@ theorem advindex_accesses_affine_inbounds (contig : Bool) (B : Shape) (first las
         (evalList (idxEnv i (advBinds in0 names a (Lower.arrsOf ixs))) ix) :=
   advIndexWith_accesses ⟨hva, hB, hnd, hn, hi⟩ hs
 
+/-! ## the array API: binary operators, comparisons, logical operations, `where` -/
+
+/-- every access of the index lambda the API builds for a binary operation is
+    an affine, in-bounds read of an operand — for all shapes that broadcast -/
+theorem binop_accesses_inbounds (op : Raise.BinOp) (o1 o2 : BOpd) (v1 v2 : Option (Arr Val))
+    (r : Shape) (res : String) (cast isPow : Bool) (binds : List (String × Arr Val)) (i : Idx)
+    (hr : ptBroadcast [Lower.opdShape o1, Lower.opdShape o2] = some r)
+    (h1 : OpdOK 0 o1 v1 binds) (h2 : OpdOK 1 o2 v2 binds) (hi : inB r i = true) :
+    ∀ acc ∈ accesses (idxEnv i binds) (Lower.binopExpr op o1 o2 r res cast isPow),
+      acc.ok = true ∧ acc.affine = true :=
+  binopExpr_accesses op o1 o2 v1 v2 r res cast isPow binds i hr h1 h2 hi
+
+/-- likewise for `pt.where` (only the taken branch is read) -/
+theorem where_accesses_inbounds (oc ox oy : BOpd) (vc vx vy : Option (Arr Val)) (r : Shape)
+    (binds : List (String × Arr Val)) (i : Idx)
+    (hr : ptBroadcast [Lower.opdShape oc, Lower.opdShape ox, Lower.opdShape oy] = some r)
+    (h1 : OpdOK 0 oc vc binds) (h2 : OpdOK 1 ox vx binds) (h3 : OpdOK 2 oy vy binds)
+    (hi : inB r i = true) :
+    ∀ acc ∈ accesses (idxEnv i binds) (Lower.whereExpr oc ox oy r),
+      acc.ok = true ∧ acc.affine = true :=
+  whereExpr_accesses oc ox oy vc vx vy r binds i hr h1 h2 h3 hi
+
 /-! ## non-vacuity: the hypotheses are those of C02 (instances there); here the
     access lists of concrete instances, computed -/
 
